@@ -33,6 +33,8 @@ def render(line, nco, wrapset, maxsteps):
             me = "MAIN" if who == 0 else "CO[%d]" % who
             s = ('do local co, m = coroutine.running(); emit("running", %d, co == %s, m); '
                  'emit("yieldable", %d, coroutine.isyieldable()) end') % (k, me, k)
+        elif act == "kill":
+            s = "while true do end"
         elif act == "tbc":
             s = ('local x%d <close> = setmetatable({}, {__close = function(_, e) emit("tbc", %d, e) end})' % (k, k))
         else:
@@ -51,7 +53,15 @@ def render(line, nco, wrapset, maxsteps):
             out.append("W[%d] = coroutine.wrap(body%d)" % (i, i))
         else:
             out.append("CO[%d] = coroutine.create(body%d)" % (i, i))
-    out += per[0]
+    killed = any(a["a"] == "kill" for a in line["h"])
+    if killed:
+        # the whole script runs inside a CPU-limited context; the code after it observes the outcome
+        out.append("local ctx = runtime.callcontext({kill = {cpu = 3000000}}, function()")
+        out += ["  " + x for x in per[0]]
+        out.append("end)")
+        out.append('emit("ctx", ctx.status)')
+    else:
+        out += per[0]
     fin = []
     for i in range(1, nco + 1):
         if i not in wrapset or line["started"][i - 1]:
